@@ -1,0 +1,43 @@
+//go:build verif
+
+package couchbase
+
+import (
+	"github.com/couchbase/gocbcore/v10"
+
+	"github.com/Trendyol/go-dcp/config"
+	"github.com/Trendyol/go-dcp/wrapper"
+)
+
+// Verification hooks (build tag "verif" only): they expose unexported code of this package to the
+// external verification harness without changing it.
+
+// VerifParseVersion exposes nodeVersionFromString.
+func VerifParseVersion(version string) (*Version, error) {
+	return nodeVersionFromString(version)
+}
+
+// VerifReplica is one row of the rollback-mitigation replica table.
+type VerifReplica struct {
+	VbUUID gocbcore.VbUUID
+	SeqNo  gocbcore.SeqNo
+	Absent bool
+}
+
+// VerifMinSeqNo runs the unexported getMinSeqNo on a supplied replica table.
+func VerifMinSeqNo(rows []VerifReplica) gocbcore.SeqNo {
+	r := &rollbackMitigation{
+		persistedSeqNos: wrapper.CreateConcurrentSwissMap[uint16, []*vbUUIDAndSeqNo](1),
+	}
+	arr := make([]*vbUUIDAndSeqNo, len(rows))
+	for i, row := range rows {
+		arr[i] = &vbUUIDAndSeqNo{vbUUID: row.VbUUID, seqNo: row.SeqNo, absent: row.Absent}
+	}
+	r.persistedSeqNos.Store(0, arr)
+	return r.getMinSeqNo(0)
+}
+
+// VerifNewClient builds the unexported client around agents the harness connected itself.
+func VerifNewClient(cfg *config.Dcp, agent *gocbcore.Agent, metaAgent *gocbcore.Agent, dcpAgent *gocbcore.DCPAgent) Client {
+	return &client{agent: agent, metaAgent: metaAgent, dcpAgent: dcpAgent, config: cfg}
+}
